@@ -92,7 +92,7 @@ def check(item, tier):
     g = float(spec.gamma)
     with warnings.catch_warnings():
         warnings.simplefilter('ignore')
-        mdp = build.SpecMDP(spec, SLAB[li], ALAB[li])
+        mdp = build.SpecMDP(spec, SLAB[li], ALAB[li], dist_kind=['dict', 'uniform', 'det'][(li + len(cfgs)) % 3])
         sl, al = mdp.sl, mdp.al
         rmin, rmax = float(spec.min_reward()), float(spec.max_reward())
         sib_T = tuple(tuple((a, d, (tuple(x - 3 for x in rw) if isinstance(rw, tuple) else rw - 3)) for a, d, rw in row) for row in spec_item[2])
